@@ -1,10 +1,12 @@
 CONSTANTS
-  Running = {"AddClient", "AddClient2", "DelClient", "WhipClose", "SetLocked", "Shutdown", "GetDescription", "Stats", "Reload", "History"}
+  Running = {"AddClient", "AddClient2", "DelClient", "WhipClose", "SetLocked", "Shutdown", "GetDescription", "Stats", "Reload", "History", "HistoryReplay", "OpLeaves"}
   MaxConc = 2
   Fixed_F4 = TRUE
   Fixed_F5 = FALSE
   Fixed_F8 = TRUE
   Fixed_F18 = TRUE
   WhipConnected = TRUE
+  Async_Autokick = TRUE
+  History_Copy = TRUE
 SPECIFICATION Spec
 INVARIANTS NoRace WellFormed
